@@ -121,15 +121,28 @@ def run(ctx):
     # make sure every catalogue entry is executed at least once (after some history)
     for c, es in by_class.items():
         plan.extend([c] * max(0, len(es) - plan.count(c)))
+    # "... including calls that raised": every raising call is followed by the sentinel calls whose values (inf / nan) exist only
+    # under the default floating-point error handling
+    by_name = {e.name: e for e in entries}
+    sentinels = [e.name for e in entries if e.name.startswith("sentinel/")]
+    for e in entries:
+        if e.cls == "raising":
+            plan.extend(["@" + e.name] + ["@" + s_ for s_ in sentinels])
     cm_budget = 14 if q else 80
-    for cls in plan:
-        if cls in ("cm_default", "cm_norm"):
-            if cm_budget <= 0:
-                continue
-            cm_budget -= 1
-        es = by_class[cls]
-        e = es[cursor[cls] % len(es)]
-        cursor[cls] += 1
+    env0 = initial.get("_env")
+    for item in plan:
+        if item.startswith("@"):
+            e = by_name[item[1:]]
+            cls = e.cls
+        else:
+            cls = item
+            if cls in ("cm_default", "cm_norm"):
+                if cm_budget <= 0:
+                    continue
+                cm_budget -= 1
+            es = by_class[cls]
+            e = es[cursor[cls] % len(es)]
+            cursor[cls] += 1
         used.add(e.name)
         seed = SEED0 if cls == "random" else None
         outcome, untouched = catalogue.run_entry(e, seed)
@@ -140,8 +153,11 @@ def run(ctx):
         equals_fresh = (outcome == want) if want["ok"] else True
         raised_as_fresh = outcome["ok"] == want["ok"] and (want["ok"] or outcome["value"] == want["value"])
         ticks = any("ticks" in d for d in st["similarity_clustermap"])
-        others = {k: v for k, v in st.items() if k != "_cal"}
-        init_others = {k: v for k, v in initial.items() if k != "_cal"}
+        if st.get("_env") != env0:
+            ctx.note(f"process-wide settings differ after {e.name}: {st.get('_env')} (initially {env0})")
+            env0 = st.get("_env")
+        others = {k: v for k, v in st.items() if k not in ("_cal", "_env")}
+        init_others = {k: v for k, v in initial.items() if k not in ("_cal", "_env")}
         for d in others["similarity_clustermap"]:
             d.pop("ticks", None)
         dflt = others != init_others
